@@ -105,6 +105,8 @@ def h_foreign(ctx):
     sizes = [0, 1, 100, LIMIT - 1, LIMIT, LIMIT + 1, LIMIT + 100, LIMIT + 257, LIMIT + 258, 257 * 1024, 1 << 20, 64 << 20] + ([1 << 30] if config.thorough() else [])
     n = ctx.choose("expands_to", sizes)
     form = ctx.choose("form", ["compact", "flattened"])
+    # the bound is a property of decryption, not of one way of configuring it
+    how = ctx.choose("configured_by", ["algorithms=", "registry(verify_all_recipients=False)", "registry(strict_check_header=False)"])
     body = stream(framing, n, cls)
     t = c16.jwe_seed("dir", "oct16", "A128GCM", form, zipv="DEF")
     tok = c16.jwe_wire(t, form, body=body)
@@ -113,7 +115,12 @@ def h_foreign(ctx):
     gc.collect()
     tracemalloc.start()
     base = tracemalloc.get_traced_memory()[0]
-    d = scen.jwe_decrypt(tok, key, ["dir", "A128GCM", "DEF"])
+    if how == "algorithms=":
+        d = scen.jwe_decrypt(tok, key, ["dir", "A128GCM", "DEF"])
+    else:
+        from joserfc.jwe import JWERegistry
+        d = scen.jwe_decrypt(tok, key, None, registry=JWERegistry(algorithms=["dir", "A128GCM", "DEF"], verify_all_recipients="verify_all" not in how,
+                                                                  strict_check_header="strict_check" not in how))
     peak = tracemalloc.get_traced_memory()[1] - base
     tracemalloc.stop()
     from joserfc.errors import ExceededSizeError
@@ -122,7 +129,7 @@ def h_foreign(ctx):
     # memory may scale with the size of the *input* (the token is held as text, octets, ciphertext and compressed plaintext),
     # never with what the stream expands to
     bound = 4 * LIMIT + 8 * toklen + (2 << 20)
-    what = f"{framing} stream of {len(body)} octets expanding to {n} ({cls}), {form}"
+    what = f"{framing} stream of {len(body)} octets expanding to {n} ({cls}), {form}, {how}"
     if n <= LIMIT:
         want = gen(cls, n) if n < 1 << 20 else None
         if not d.ok:
@@ -137,7 +144,7 @@ def h_foreign(ctx):
     if peak > bound:
         vs.append(viol(f"decompression materialises far more than the limit ({framing} stream)", f"{what}: tracemalloc peak {peak} > bound {bound}"))
     return Outcome(f"{'within' if n <= LIMIT else 'over'}:{'ok' if d.ok else 'rej:' + d.etype}:{'mem-ok' if peak <= bound else 'MEM'}", vs,
-                   nontrivial=(framing, cls, n, form))
+                   nontrivial=(framing, cls, n, form, how))
 
 
 # ------------------------------------------------------------------ streams whose output reaches the limit exactly at a given input offset
